@@ -15,8 +15,8 @@ RULE = ("seeded Nest(outer, inner) designs over disjoint crossings without pream
         "associativity Nest(a,Nest(b,c)) = Nest(Nest(a,b),c); non-trivial = >=2 nest solutions; distinct = design skeleton")
 ASSUMPTIONS = ["constraints attached to the OUTER block have no documented meaning under Nest and are not generated",
                "whole-sequence constraints of the Nest are evaluated with sim/refsem.py's constraint semantics"]
-BUDGET = {"quick": 45, "thorough": 900}
-RUNS = {"quick": 2000, "thorough": 45000}
+BUDGET = {"quick": 300, "thorough": 900}
+RUNS = {"quick": 250, "thorough": 45000}
 
 
 def gen_case(rs, tier):
